@@ -13,7 +13,7 @@ import (
 	appsv1 "k8s.io/api/apps/v1"
 	batchv1 "k8s.io/api/batch/v1"
 	corev1 "k8s.io/api/core/v1"
-	netv1 "k8s.io/api/networking/v1"
+	netv1beta1 "k8s.io/api/networking/v1beta1"
 	metav1 "k8s.io/apimachinery/pkg/apis/meta/v1"
 	"k8s.io/apimachinery/pkg/runtime"
 )
@@ -158,13 +158,18 @@ func Build(kind string, s Spec) runtime.Object {
 	case "job":
 		return &batchv1.Job{ObjectMeta: om, Spec: batchv1.JobSpec{Selector: labelSel(s.Sel), Template: tmpl}}
 	case "ingress":
-		ing := &netv1.Ingress{ObjectMeta: om}
-		var paths []netv1.HTTPIngressPath
-		for _, r := range s.Refs {
-			paths = append(paths, netv1.HTTPIngressPath{Backend: netv1.IngressBackend{Service: &netv1.IngressServiceBackend{Name: r}}})
+		ing := &netv1beta1.Ingress{ObjectMeta: om}
+		var paths []netv1beta1.HTTPIngressPath
+		for i, r := range s.Refs {
+			if i == 0 && len(s.Refs) > 1 {
+				// the first reference is the default backend, the rest are rule paths
+				ing.Spec.Backend = &netv1beta1.IngressBackend{ServiceName: r}
+				continue
+			}
+			paths = append(paths, netv1beta1.HTTPIngressPath{Backend: netv1beta1.IngressBackend{ServiceName: r}})
 		}
 		if len(paths) > 0 {
-			ing.Spec.Rules = []netv1.IngressRule{{IngressRuleValue: netv1.IngressRuleValue{HTTP: &netv1.HTTPIngressRuleValue{Paths: paths}}}}
+			ing.Spec.Rules = []netv1beta1.IngressRule{{IngressRuleValue: netv1beta1.IngressRuleValue{HTTP: &netv1beta1.HTTPIngressRuleValue{Paths: paths}}}}
 		}
 		return ing
 	}
